@@ -23,14 +23,20 @@ def configs(rng, tier):
     langs = [l for l in S.languages() if not l.startswith("zz")]
     codes = S.braille_codes()
     cfgs = []
-    n = 10 if tier == "quick" else 40
+    n = 16 if tier == "quick" else 48
+    # region tags whose number separators differ from their language's in the BLOCK separators only (ch, li add the apostrophe),
+    # languages with no rules of their own (they speak English with their own separators), and BlockSeparators set directly:
+    # what canonicalization compiled for one set of separators must not be used under another
+    extras = ["de-ch", "de", "en", "es-mx", "fr-ch", "it-li", "fr", "sv"]
     for i in range(n):
-        lang = langs[i % len(langs)] if i < len(langs) else rng.choice(langs)
+        lang = langs[i % len(langs)] if i < len(langs) else extras[(i - len(langs)) % len(extras)] if i < len(langs) + len(extras) else rng.choice(langs + extras)
         cfgs.append({"Language": lang, "SpeechStyle": rng.choice(["ClearSpeak", "SimpleSpeak"]),
                      "Verbosity": rng.choice(["Terse", "Medium", "Verbose"]), "BrailleCode": codes[i % len(codes)],
                      "TTS": rng.choice(["None", "None", "SSML", "SAPI5"]), "DecimalSeparator": rng.choice(["Auto", "Auto", ".", ","]),
                      "BrailleNavHighlight": rng.choice(["Off", "EndPoints", "All"]),
                      "CheckRuleFiles": rng.choice(["Prefs", "Prefs", "None", "All"])})
+        if i % 4 == 3:
+            cfgs[-1]["BlockSeparators"] = rng.choice([" ", ",", ".'", ", '"])
     return cfgs
 
 
@@ -129,7 +135,12 @@ def run(tier):
               "<math><mfrac><mfrac><mn>1</mn><mn>2</mn></mfrac><mfrac><mi>a</mi><mn>3.5</mn></mfrac></mfrac></math>",
               "<math><mrow intent='binomial($n,$k)'><mo>(</mo><mfrac linethickness='0'><mi arg='n'>n</mi><mi arg='k'>k</mi></mfrac><mo>)</mo></mrow></math>",
               "<math><msub><mi mathvariant='normal'>H</mi><mn>2</mn></msub><mi mathvariant='normal'>O</mi><mo>+</mo><mi>CO</mi><mn>2</mn></math>",
-              "<math><mi>A</mi><mo>=</mo><mn>3,14</mn><msup><mi>R</mi><mn>2</mn></msup></math>"]
+              "<math><mi>A</mi><mo>=</mo><mn>3,14</mn><msup><mi>R</mi><mn>2</mn></msup></math>",
+              # numbers split at every separator a locale may use: how they fold depends on BlockSeparators / DecimalSeparators
+              "<math><mn>1</mn><mo>,</mo><mn>234</mn><mo>+</mo><mn>5</mn></math>", "<math><mn>1</mn><mtext>'</mtext><mn>234</mn><mo>+</mo><mn>5</mn><mo>.</mo><mn>678</mn></math>",
+              "<math><mi>x</mi><mo>=</mo><mn>12</mn><mo>.</mo><mn>345</mn><mo>.</mo><mn>678</mn><mo>,</mo><mn>9</mn></math>",
+              "<math><mn>1</mn><mtext>&#xA0;</mtext><mn>234</mn><mo>&#x2212;</mo><mn>2</mn><mo>&#x202F;</mo><mn>345</mn><mo>,</mo><mn>6</mn></math>",
+              "<math><mn>7'654'321</mn><mo>+</mo><mn>1 234</mn><mo>+</mo><mn>1.234,5</mn></math>"]
     # words that one definitions.yaml lists and another does not (function names, known words, units): a definition table that
     # outlives a language or code switch shows on these, as a function name, with a numeric subscript, spelled letter by letter,
     # and as a unit
